@@ -25,8 +25,10 @@ type Identifier struct {
 // IdentifierFromString creates an identifier from a string
 func IdentifierFromString(id string) Identifier {
 	l := len(id)
-	if l > 0 && id[0] == '"' {
+	if l > 1 && id[0] == '"' && id[l-1] == '"' {
 		return Identifier{id: id[1 : l-1], ignoreCase: false}
+	} else if l > 0 && id[0] == '"' { // Not a well-formed quoted identifier (e.g. a lone quote); keep it as is
+		return Identifier{id: id, ignoreCase: false}
 	} else {
 		return Identifier{id: id, ignoreCase: true}
 	}
